@@ -186,7 +186,7 @@ class RSock:
         self.env = env
         self.open = False
         self.closed = False
-        self.banner = False
+        self.kind = 'n'
         self.recvd = 0
         self.sent = b''
 
@@ -206,7 +206,7 @@ class RSock:
 
     def recv(self, n):
         self.recvd += 1
-        return b'SSH-2.0-' if self.banner else b''
+        return {'b': b'SSH-2.0-', 'x': b'Exceeded', 'g': b'\x00\x01garb'}.get(self.kind, b'')
 
     def send(self, d):
         self.sent += bytes(d)
@@ -266,7 +266,7 @@ class RateEnv:
             rd, nx = env.cur_iter if env.cur_iter else ('', 0)
             rl = list(r[:len(rd)])
             for s, ch in zip(rl, rd):
-                s.banner = (ch == 'b')
+                s.kind = ch
             el = list(r[len(rl):len(rl) + nx])
             return rl, [], el
         sel.select = select
@@ -338,12 +338,17 @@ def gen_iters(r, conc):
             its.append('T')
             continue
         c = ''.join(r.choice('1110') for _ in range(r.randint(0, conc + 1)))
-        rd = ''.join(r.choice('bbn') for _ in range(r.randint(0, conc)))
+        rd = ''.join(r.choice('bbnxxg') for _ in range(r.randint(0, conc)))
         its.append((c, rd, r.choice([0, 0, 0, 1, 2])))
     return its
 
 
 def iter_tok(it):
+    """model token: only "starts with SSH-" matters to the loop ('x' = sshd's "Exceeded MaxStartups" line, 'g' = other bytes, 'n' = closed)"""
+    return 'T' if it == 'T' else '%s/%s/%d' % (it[0], ''.join('b' if ch == 'b' else 'n' for ch in it[1]), it[2])
+
+
+def iter_name(it):
     return 'T' if it == 'T' else '%s/%s/%d' % it
 
 
@@ -447,7 +452,7 @@ def run(ctx):
                 fail(kind, inp, obs, 'allowed shapes')
     # concurrency of the rate check inside a full audit: measured on its own net
     for kexs in (['diffie-hellman-group14-sha256'], ['curve25519-sha256', SHA256], ['curve25519-sha256'], ['mlkem768x25519-sha256', 'kex-strict-s-v00@openssh.com']):
-        for variant in ('banner', 'close', 'silent'):
+        for variant in ('banner', 'close', 'silent', 'exceeded'):
             sc = {'kex': kexs, 'keys': ['ssh-ed25519'], 'openssh': True, 'plan': [], 'style': 'openssh', 'M': [3072]}
             base_net = run_audit(sc)[2]
             base = len(base_net.connects)
@@ -461,7 +466,8 @@ def run(ctx):
                         if self.rate_start is None:
                             self.rate_start = self.cur_open
                             self.max_open = self.cur_open
-                        return fn.Server(banner=b'SSH-2.0-OpenSSH_8.9p1', kexinit_payload=payload, silent=(variant == 'silent'), close_on_connect=(variant == 'close'))
+                        return fn.Server(banner=(b'Exceeded MaxStartups' if variant == 'exceeded' else b'SSH-2.0-OpenSSH_8.9p1'), kexinit_payload=payload, silent=(variant == 'silent'),
+                                         close_on_connect=(variant == 'close'), close_after_send=(variant == 'exceeded'))
                     return super().route(addr)
             net = VNet(ip, b'SSH-2.0-OpenSSH_8.9p1', payload, sc['keys'], STYLES['openssh']([3072]), [])
             net.rate_start = None
@@ -486,11 +492,14 @@ def run(ctx):
 
     # ---- the rate loop itself vs. the model -------------------------------------------------------------------------
     rlines, rexp = [], []
-    for _ in range(ctx.scale(300, 6000)):
+    fixed_its = [[('111', 'xxx', 0)] * 200, [('111', 'xbx', 0)] * 200, [('111', 'ggg', 0)] * 200, [('111', 'nnn', 0)] * 200, [('111', 'bbb', 0)] * 200, [('111', '', 0)] * 200]
+    for k in range(ctx.scale(300, 6000) + len(fixed_its)):
         mx, conc = r.choice([(38, 3), (38, 3), (5, 2), (10, 5), (1, 1), (7, 3)])
         its = gen_iters(r, conc)
+        if k < len(fixed_its):
+            mx, conc, its = 38, 3, fixed_its[k]
         got, env = run_rate(its, mx, conc)
-        inp = {'iters': [iter_tok(i) for i in its], 'max': mx, 'concurrent': conc}
+        inp = {'iters': [iter_name(i) for i in its], 'max': mx, 'concurrent': conc}
         cov.add(('rateloop', mx, conc, tuple(inp['iters'])), True, tags=['rate-loop', 'attempted-%02d' % got['attempted']])
         how = 'harness/props/C19.py: real DHEat._dh_rate_test under a scripted clock/connect/select'
         if got['attempted'] > mx:
@@ -501,7 +510,7 @@ def run(ctx):
             fail('connection_left_open', inp, env.cur, 0, how)
         if env.sent_any:
             fail('rate_test_sent_data', inp, True, 'nothing is sent', how)
-        rlines.append('footprint.rate %d %d %s' % (mx, conc, ','.join(inp['iters']) or '_'))
+        rlines.append('footprint.rate %d %d %s' % (mx, conc, ','.join(iter_tok(i) for i in its) or '_'))
         rexp.append((got, inp))
     rmodel = ctx.driver(rlines) if ctx.driver_ok else []
     for line, m, (got, inp) in zip(rlines, rmodel, rexp):
